@@ -1079,8 +1079,20 @@ func execStep(tr *Trace, store *RefStore, rts map[int]*instRT, st Step, apiSeq *
 		// "$TOKn" stands for the fencing token instance n holds right now (an outside party that has learnt it)
 		b := st.Bytes
 		for id, r := range rts {
-			if r != nil && r.el != nil && strings.Contains(b, fmt.Sprintf("$TOK%d", id)) {
-				b = strings.ReplaceAll(b, fmt.Sprintf("$TOK%d", id), r.el.Token())
+			if r == nil || r.el == nil {
+				continue
+			}
+			// ("$UPTOKn", "$BRTOKn", "$URNTOKn", "$RAWTOKn": the same token written another way - upper case, in braces, as
+			//  a URN, without hyphens: other strings, whatever a UUID parser makes of them)
+			tok := r.el.Token()
+			for name, v := range map[string]string{"$UPTOK": strings.ToUpper(tok), "$BRTOK": "{" + tok + "}", "$URNTOK": "urn:uuid:" + tok,
+				"$RAWTOK": strings.ReplaceAll(tok, "-", "")} {
+				if tok != "" {
+					b = strings.ReplaceAll(b, fmt.Sprintf("%s%d", name, id), v)
+				}
+			}
+			if strings.Contains(b, fmt.Sprintf("$TOK%d", id)) {
+				b = strings.ReplaceAll(b, fmt.Sprintf("$TOK%d", id), tok)
 			}
 		}
 		store.extPut(st.Key, []byte(b))
